@@ -297,7 +297,11 @@ func (m *Machine) chanRecvNow(c *chanVal) (value, bool) {
 	return m.zero(c.elem), false // closed
 }
 
-func (m *Machine) chanSend(c *chanVal, v value) {
+func (m *Machine) chanSend(c *chanVal, v value) { m.chanSendEv(c, v, true) }
+
+// chanSendEv: ev=false when the send is the chosen case of a select (the select already
+// recorded its event; the native gate sees one operation).
+func (m *Machine) chanSendEv(c *chanVal, v value, ev bool) {
 	if c == nil {
 		m.block(func() bool { return false })
 	}
@@ -315,7 +319,9 @@ func (m *Machine) chanSend(c *chanVal, v value) {
 			g := m.rt.cur.id
 			m.curVC().set(g, m.curVC().get(g)+1)
 		}
-		m.event("send")
+		if ev {
+			m.event("send")
+		}
 		m.preemptPoint()
 		return
 	}
@@ -328,7 +334,9 @@ func (m *Machine) chanSend(c *chanVal, v value) {
 	c.sendq = append(c.sendq, req)
 	// a blocking send is recorded when the sender commits to it ("sendb"): the native replay
 	// lets the sender enter the channel operation and admits the following events beside it
-	m.event("sendb")
+	if ev {
+		m.event("sendb")
+	}
 	m.block(func() bool { return req.done || c.closed })
 	if !req.done {
 		panic(goPanic{"send on closed channel"})
@@ -413,7 +421,7 @@ func (m *Machine) selectOp(fr *frame, in *ssa.Select) value {
 		}
 	}
 	if states[pick].send {
-		m.chanSend(states[pick].c, states[pick].v)
+		m.chanSendEv(states[pick].c, states[pick].v, false)
 	}
 	return res
 }
